@@ -115,6 +115,7 @@ fn main() {
     };
     if worker {
         runner::worker_main(factory, tier);
+        let _ = std::fs::remove_dir_all(ucgrun::scratch_root());
         return;
     }
     let code = runner::run_check(
@@ -127,5 +128,7 @@ fn main() {
             cases_override: cases,
         },
     );
+    // nothing of this process is needed under the scratch root any more
+    let _ = std::fs::remove_dir_all(ucgrun::scratch_root());
     std::process::exit(code);
 }
